@@ -61,6 +61,10 @@ CLAIMED = {
          'Exploration by generated search over failure class x file role (executed, included, imported block, extended layout, overriding block) x preceding content (multi-line text and comments, trim markers, same-line actions) x nesting depth; a replay tier holds one regression case per fixed defect.',
          'Trusts the reference interpreter for the output prefix and the printer for line ground truth. Positions of errors raised inside called functions (exec of a missing template, len(1), ints(1), isset(), Panicf) are not checked; failing actions occupy a single line except the multi-line yield-with-content variant.',
          'DESIGN.md section 5/C12'),
+ 'C10': ('property-based testing (rapid), history-based differential: generated sequences of Execute calls over a pool of ordinary / failing / probing templates on one goroutine; oracle = the same call on freshly emptied object pools (two forced GCs) versus inside the history with GOMAXPROCS(1) and GC off (pooled Runtime reuse observed by pointer), structural hash of every parsed Template before/after, MiniJet reference interpreter as second opinion',
+         'Exploration by generated histories (2-15 calls, 3-8 templates): output byte equality and error nil-ness/position equality between fresh state and history position; evidence reports how many histories observed Runtime reuse and a failing execution followed by a probing one on the same Runtime.',
+         'sync.Pool reuse is made deterministic with one P and the GC disabled for the duration of a history; not run under -race (race mode drops pooled items at random). Error texts are not compared (they may print addresses).',
+         'DESIGN.md section 5/C10'),
 }
 PENDING = {}
 
